@@ -58,7 +58,11 @@ def sstep (c : Ctx) (prog : List Insn) (nS : Nat) (pc ix : Nat) (slots astk : Li
   | some (.restore slot) =>
     if slot < nS then
       match slots[slot]? with
-      | some v => some (.run (pc + 1) v slots astk stack)
+      | some v =>
+        -- the restored value is a position inside the text (never an unset slot): what the byte-level
+        -- refinement needs of a run (`Lemmas/VMBytesInv.lean`, `tameOK`); compiled code restores the
+        -- position its look-around saved
+        if v ≤ c.len then some (.run (pc + 1) v slots astk stack) else none
       | none => none
     else none
   | some (.repeatGr lo hi next rep) =>
